@@ -116,7 +116,7 @@ fn call(id: u32, f: &str, args: Vec<E>) -> E {
     E::Call(id, Box::new(v(f)), args)
 }
 fn fun(name: &str, params: Vec<(&str, Ty)>, ret: Ty, body: E) -> Top {
-    Top::Fn(FnDef { name: name.into(), params: params.into_iter().map(|(n, t)| Param { name: n.into(), annotate: !matches!(t, Ty::Num), ty: t }).collect(), annotate_ret: !matches!(ret, Ty::Num), ret, body })
+    Top::Fn(FnDef { name: name.into(), defaults: vec![], params: params.into_iter().map(|(n, t)| Param { name: n.into(), annotate: !matches!(t, Ty::Num), ty: t }).collect(), annotate_ret: !matches!(ret, Ty::Num), ret, body })
 }
 fn tup2() -> Ty {
     Ty::Tup(vec![Ty::Num, Ty::Num])
